@@ -268,8 +268,8 @@ def h_shape(shape, span, anchor, tight, pin):
 
 def h_shape_int_snapped(n, span, pin):
     """shape=<int> with the default snapping: the integer fixes the pixel size (longest span / n,
-    square pixels); the box is then snapped like any resolution-driven box, so it covers the
-    region and its longest side has n pixels, or n+1 when the region does not start on the grid"""
+    square pixels) and the pixel counts (longest side n); the origin is snapped to the grid, which
+    displaces the box from the region by less than one pixel"""
     import odc.geo.geobox as gbx
     from odc.geo.geom import BoundingBox
 
@@ -283,11 +283,11 @@ def h_shape_int_snapped(n, span, pin):
     A = g.affine
     prove("square_pixels", And(ex(A.a) == res, ex(A.e) == -res))
     longest = m_max(g.shape.x, g.shape.y) if not symx.concrete_mode() else max(g.shape.x, g.shape.y)
-    prove("longest_side_n_or_n_plus_1", Or(longest == n, longest == n + 1))
+    prove("longest_side_n", longest == n)
     x0, y0 = g.pix2wld(0, 0)
-    x1, y1 = g.pix2wld(g.shape.x, g.shape.y)
     t = F(1, 100) * res
-    prove("covers_region", And(ex(x0) <= ex(l) + t, ex(x1) >= ex(l) + sx - t, ex(y1) <= ex(b) + t, ex(y0) >= ex(b) + sy - t))
+    top = ex(b) + sy
+    prove("displaced_by_less_than_one_pixel", And(ex(x0) <= ex(l) + t, ex(l) - ex(x0) < res + t, ex(y0) >= top - t, ex(y0) - top < res + t))
     prove("on_the_grid", And(ex(x0) / res == symx.s_floor(ex(x0) / res), ex(y0) / res == symx.s_floor(ex(y0) / res)) if not symx.concrete_mode() else True)
 
 
